@@ -24,6 +24,8 @@ import (
 	"runtime/debug"
 	"sort"
 	"strings"
+	"sync"
+	"sync/atomic"
 	"time"
 
 	invpkg "github.com/lightningnetwork/lnd/invoices"
@@ -36,6 +38,7 @@ type concDoc struct {
 	Threads  [][]string `json:"threads"`
 	Schedule []int      `json:"schedule"` // index into the enabled list at every decision point
 	Bound    int        `json:"preemption_bound"`
+	Free     bool       `json:"free_running,omitempty"` // race target: no schedule, real goroutines
 }
 
 type concCase struct {
@@ -439,6 +442,7 @@ func exploreCase(run *evid.Run, c concCase, bound int, deadline time.Time, st *S
 }
 
 type concAgg struct {
+	mu sync.Mutex
 	execs, steps, cases, deadlocks, nonserial int64
 	snap, outcomes                            map[string]bool
 	caps                                      []string
@@ -446,8 +450,41 @@ type concAgg struct {
 }
 
 func (a *concAgg) capped(why string) {
+	a.mu.Lock()
+	defer a.mu.Unlock()
 	if len(a.caps) < 6 {
 		a.caps = append(a.caps, why)
+	}
+}
+
+func (a *concAgg) merge(b *concAgg) {
+	a.mu.Lock()
+	defer a.mu.Unlock()
+	a.execs += b.execs
+	a.steps += b.steps
+	a.cases += b.cases
+	a.deadlocks += b.deadlocks
+	a.nonserial += b.nonserial
+	for k := range b.snap {
+		a.snap[k] = true
+	}
+	for k := range b.outcomes {
+		a.outcomes[k] = true
+	}
+	for _, c := range b.caps {
+		if len(a.caps) < 6 {
+			a.caps = append(a.caps, c)
+		}
+	}
+	for _, x := range b.samples {
+		if len(a.samples) < 3 {
+			a.samples = append(a.samples, x)
+		}
+	}
+	for _, x := range b.nonserialSamples {
+		if len(a.nonserialSamples) < 3 {
+			a.nonserialSamples = append(a.nonserialSamples, x)
+		}
 	}
 }
 
@@ -467,16 +504,34 @@ func runConc(run *evid.Run, deadline time.Time, st *Stats) concResult {
 	bound = envInt("C15_PREEMPT", bound)
 	cases := concCases(run.Thorough())
 	t0 := time.Now()
-	for _, c := range cases {
-		if run.Violations() >= 8 {
-			break
-		}
-		if time.Now().After(deadline) {
-			agg.capped("deadline before interleaving case " + c.String())
-			break
-		}
-		exploreCase(run, c, bound, deadline, st, agg)
+	// cases are independent: a few are explored at a time (each on its own registry and
+	// scheduler); the goroutine-id lookup of the scheduler shim serialises on a runtime
+	// lock, so more than a handful of workers does not help
+	var (
+		wg   sync.WaitGroup
+		next atomic.Int64
+	)
+	for wk := 0; wk < envInt("C15_CONC_WORKERS", 4); wk++ {
+		wg.Add(1)
+		go func() {
+			defer wg.Done()
+			for {
+				i := int(next.Add(1)) - 1
+				if i >= len(cases) || run.Violations() >= 8 {
+					return
+				}
+				c := cases[i]
+				if time.Now().After(deadline) {
+					agg.capped("deadline before interleaving case " + c.String())
+					return
+				}
+				local := &concAgg{snap: map[string]bool{}, outcomes: map[string]bool{}}
+				exploreCase(run, c, bound, deadline, st, local)
+				agg.merge(local)
+			}
+		}()
 	}
+	wg.Wait()
 	cov := map[string]any{
 		"cases": agg.cases, "cases_total": len(cases), "executions": agg.execs, "scheduler_steps": agg.steps,
 		"preemption_bound": bound, "distinct_intermediate_states": len(agg.snap), "distinct_outcomes": len(agg.outcomes),
@@ -496,6 +551,18 @@ func replayConcDoc(doc replayDoc, rep reporter, logf func(string, ...any)) int {
 		store = doc.Stores[0]
 	}
 	c := concCase{Kind: doc.Kind, Store: store, Prefix: doc.Conc.Prefix, Threads: doc.Conc.Threads}
+	if doc.Conc.Free {
+		// a free-running case has no schedule to replay: it is executed 20 times
+		n := 0
+		for i := 0; i < 20; i++ {
+			o, err := runFree(c, func(sig, what string, _, _ []string) { rep("free-"+sig, what, nil, nil) }, nil)
+			if logf != nil {
+				logf("free-running execution %d of %s: %s %v", i+1, c, o, err)
+			}
+			n++
+		}
+		return n
+	}
 	if logf != nil {
 		logf("interleaving case %s, schedule %v", c, doc.Conc.Schedule)
 	}
